@@ -30,9 +30,49 @@ pub struct SinkPlan {
     /// tee-ing writer may do. It must not disturb the outer rendering.
     #[serde(default, skip_serializing_if = "Option::is_none")]
     pub reentrant_hi: Option<String>,
+    /// how deep the re-entrancy goes: the scratch sink of the re-entrant rendering itself formats
+    /// the same value on its first chunk, and so on, until this many renderings of the crate's
+    /// `Display` are live at once on one thread (absent = 1). A chain of tee-ing writers does
+    /// this; an implementation that draws on a bounded shared resource per live rendering (a
+    /// buffer pool, a fixed table) meets its exhausted path only here.
+    #[serde(default, skip_serializing_if = "Option::is_none")]
+    pub reentrant_depth: Option<u32>,
+}
+
+/// Deepest re-entrancy a plan may ask for (bounds the stack a step needs).
+pub const MAX_REENTRANT_DEPTH: u32 = 160;
+
+/// Scratch sink of a re-entrant rendering; while `remaining > 0` it re-enters once more on its
+/// first chunk. Never refuses a chunk.
+struct NestSink<'b> {
+    remaining: u32,
+    inner: &'b TwoFloat,
+    outs: &'b mut Vec<(bool, String)>,
+    data: String,
+    first: bool,
+}
+
+impl Write for NestSink<'_> {
+    fn write_str(&mut self, s: &str) -> fmt::Result {
+        if self.first {
+            self.first = false;
+            if self.remaining > 0 {
+                let mut n = NestSink { remaining: self.remaining - 1, inner: self.inner, outs: &mut *self.outs, data: String::new(), first: true };
+                let r = write!(n, "{}", self.inner);
+                let text = std::mem::take(&mut n.data);
+                drop(n);
+                self.outs.push((r.is_ok(), text));
+            }
+        }
+        self.data.push_str(s);
+        Ok(())
+    }
 }
 
 impl SinkPlan {
+    pub fn depth(&self) -> u32 {
+        self.reentrant_depth.unwrap_or(1).clamp(1, MAX_REENTRANT_DEPTH)
+    }
     pub fn is_faulty(&self) -> bool {
         self.fail_at_chunk.is_some() || self.capacity.is_some() || self.reentrant_hi.is_some()
     }
@@ -79,6 +119,8 @@ pub struct SimSink<'a> {
     pub reentered: bool,
     /// (high word, fmt result ok, text) of the rendering the sink made re-entrantly
     pub reentered_output: Option<(u64, bool, String)>,
+    /// (fmt result ok, text) of every deeper rendering of the same value (innermost first)
+    pub reentered_nested: Vec<(bool, String)>,
     pub log: Hash64,
     pub sig: Hash64,
 }
@@ -95,6 +137,7 @@ impl<'a> SimSink<'a> {
             writes_after_refusal: 0,
             reentered: false,
             reentered_output: None,
+            reentered_nested: Vec::new(),
             log: Hash64::default(),
             sig: Hash64::default(),
         }
@@ -116,10 +159,14 @@ impl Write for SimSink<'_> {
             if let Some(h) = self.plan.reentrant_hi.as_deref().and_then(|t| crate::values::parse_hex(t).ok()) {
                 if f64::from_bits(h).is_finite() {
                     let inner = raw_twofloat(h, 0);
-                    let mut scratch = String::new();
+                    let mut outs = Vec::new();
+                    let mut scratch = NestSink { remaining: self.plan.depth() - 1, inner: &inner, outs: &mut outs, data: String::new(), first: true };
                     let r = write!(scratch, "{}", inner);
+                    let text = std::mem::take(&mut scratch.data);
+                    drop(scratch);
                     self.reentered = true;
-                    self.reentered_output = Some((h, r.is_ok(), scratch));
+                    self.reentered_output = Some((h, r.is_ok(), text));
+                    self.reentered_nested = outs;
                 }
             }
         }
@@ -525,6 +572,29 @@ pub fn execute(c: &FmtCase) -> LegReport {
                     rep.violations.push(x);
                 }
             }
+            let nested = std::mem::take(&mut sink.reentered_nested);
+            if !nested.is_empty() {
+                rep.probes.hit("sink_reentrant_nested");
+                if nested.len() >= 40 {
+                    rep.probes.hit("sink_reentrant_depth_over_40");
+                }
+            }
+            rep.steps += nested.len() as u64;
+            let total = nested.len() + 1;
+            for (i, (ok, text)) in nested.into_iter().enumerate() {
+                let live = total - i + 1; // renderings live when this one ran, the outer one included
+                if !ok {
+                    rep.violations.push(viol("FMT_SPURIOUS_ERR", format!("a re-entrant rendering into a String returned Err with {live} renderings live on the thread")));
+                    break;
+                }
+                let mut v = Vec::new();
+                check_content(&inner, &text, &mut v, &mut rep.probes);
+                if let Some(mut x) = v.into_iter().next() {
+                    x.detail = format!("re-entrant rendering with {live} renderings live on the thread: {}", x.detail);
+                    rep.violations.push(x);
+                    break;
+                }
+            }
         }
         match r {
             Err(msg) => rep.violations.push(viol("PANIC", format!("fmt panicked under sink fault: {msg}"))),
@@ -701,20 +771,25 @@ pub fn generate(r: &mut Rng, hi: u64, lo: u64) -> FmtCase {
     if r.chance(1, 10) {
         // a re-entrant sink, with or without a fault of its own
         c.sink.reentrant_hi = Some(crate::values::hex(if r.bool() { hi } else { 1.0f64.to_bits() }));
+        if r.chance(1, 6) {
+            c.sink.reentrant_depth = Some(*r.pick(&[2u32, 3, 4, 8, 16, 32, 41, 48, 64, 96, 128]));
+        }
         if r.bool() {
             return c;
         }
     }
     let reentrant = c.sink.reentrant_hi.clone();
+    let depth = c.sink.reentrant_depth;
     match r.below(3) {
-        0 => c.sink = SinkPlan { fail_at_chunk: Some(r.usize_below(nchunks)), capacity: None, sticky, reentrant_hi: reentrant.clone() },
-        1 => c.sink = SinkPlan { fail_at_chunk: None, capacity: Some(r.usize_below(nbytes)), sticky, reentrant_hi: reentrant.clone() },
+        0 => c.sink = SinkPlan { fail_at_chunk: Some(r.usize_below(nchunks)), capacity: None, sticky, reentrant_hi: reentrant.clone(), reentrant_depth: depth },
+        1 => c.sink = SinkPlan { fail_at_chunk: None, capacity: Some(r.usize_below(nbytes)), sticky, reentrant_hi: reentrant.clone(), reentrant_depth: depth },
         _ => {
             c.sink = SinkPlan {
                 fail_at_chunk: Some(r.usize_below(nchunks)),
                 capacity: Some(r.usize_below(nbytes)),
                 sticky,
                 reentrant_hi: reentrant,
+                reentrant_depth: depth,
             }
         }
     }
@@ -774,7 +849,15 @@ pub fn shrink(c: &FmtCase) -> Vec<FmtCase> {
         });
     }
     push(&|d| d.sink = SinkPlan::default());
-    push(&|d| d.sink.reentrant_hi = None);
+    push(&|d| {
+        d.sink.reentrant_hi = None;
+        d.sink.reentrant_depth = None
+    });
+    push(&|d| d.sink.reentrant_depth = None);
+    for div in [2u32, 4] {
+        push(&|d| d.sink.reentrant_depth = d.sink.reentrant_depth.map(|k| (k - k / div).max(1)));
+    }
+    push(&|d| d.sink.reentrant_depth = d.sink.reentrant_depth.map(|k| k.saturating_sub(1).max(1)));
     push(&|d| d.sink.capacity = None);
     push(&|d| d.sink.fail_at_chunk = None);
     if c.sink.is_faulty() {
